@@ -211,7 +211,10 @@ def directed(ctx, only=None):
             "Y": -1000, "G": 5}
     sides = [{"q": 3}, {"xs": [], "n": 0, "t": [], "d": {}, "o": {"n": 1, "items": [], "child": None}, "x": 0, "q": 0}]
     extra = [("all(y > 1 for y in xs if y != 5 if 10 // (y - 5) < 100)", {"xs": [7, 5, 0]}),
-             ("add(*xs) > 1000", {})]
+             ("add(*xs) > 1000", {}),
+             # displays with unpacked items (finding D27)
+             ("len([*xs, x]) > 1000", {}), ("sum((*xs, n)) > 1000", {}), ("len({*xs, x}) > 1000", {}),
+             ("len({**d, 'k': x}) > 1000", {}), ("kw(**{'a': x, 'b': n}) > 1000", {}), ("(~x << 1) ** 2 > 1000 or +n / 2 > 1000", {})]
     i = 0
     full = dict(base, zs=[], q=0)
     for tmpl, params in GR.GUARDED:
